@@ -127,3 +127,28 @@ func keyOfSend[C ~chan T | ~chan<- T, T any](ch C) interface{} { return chanKey(
 func keyOfRecv[C ~chan T | ~<-chan T, T any](ch C) interface{} { return chanKey(interface{}(ch)) }
 
 func chanKey(ch interface{}) interface{} { return chanPtr(ch) }
+
+// ChanRelease / ChanAcquire give native (non-blocking) select cases their happens-before edges: the
+// transformer calls ChanRelease(ch) before a select that may send on ch and ChanAcquire(ch) at the start of
+// the body of a receive case.
+func ChanRelease(ch interface{}) {
+	s := Current()
+	if s == nil || s.teardown {
+		return
+	}
+	st := s.chanOf(chanKey(ch))
+	st.keep = ch
+	st.o.Touch(4)
+	st.o.Release()
+}
+
+func ChanAcquire(ch interface{}) {
+	s := Current()
+	if s == nil || s.teardown {
+		return
+	}
+	st := s.chanOf(chanKey(ch))
+	st.keep = ch
+	st.o.Touch(5)
+	st.o.Acquire()
+}
